@@ -71,7 +71,7 @@ SPECS = {
     ),
     "C02": dict(
         title="glitch freedom",
-        streams=[("binds", 700, 40000, 40), ("basic", 300, 20000, 30)],
+        streams=[("binds", 400, 40000, 40), ("basic", 150, 20000, 30), ("glitch", 300, 30000, 40), ("direct", 400, 40000, 0)],
         proj=dict(keep_ops=("stabilise",), keep_events=("inv", "foldcall", "bindrun", "rec")),
         oracle=O.oracle_glitch_free, profiles=("debug", "release"), dump=True,
         nontrivial=lambda src, ops: any(len([e for e in o.events if e.startswith("inv")]) >= 2 for o in ops),
@@ -79,7 +79,7 @@ SPECS = {
     ),
     "C03": dict(
         title="bind scopes",
-        streams=[("binds", 600, 40000, 40), ("exports", 500, 30000, 40)],
+        streams=[("binds", 500, 40000, 40), ("exports", 400, 30000, 40), ("direct", 300, 30000, 0)],
         proj=dict(keep_ops=("stabilise", "read"), keep_events=("inv", "bindrun", "foldcall", "upd", "invalidate")),
         oracle=O.oracle_bind_scopes, profiles=("debug", "release"), dump=True,
         nontrivial=lambda src, ops: any("gen=" in e and "gen=0" not in e for o in ops for e in o.events if e.startswith("bindrun")),
@@ -87,7 +87,8 @@ SPECS = {
     ),
     "C04": dict(
         title="no panics on well-formed programs (both profiles)",
-        streams=[("basic", 800, 30000, 40), ("binds", 800, 30000, 40), ("drops", 800, 30000, 40), ("subs", 400, 20000, 40)],
+        streams=[("basic", 700, 30000, 40), ("binds", 700, 30000, 40), ("drops", 700, 30000, 40), ("subs", 400, 20000, 40),
+                 ("vardrops", 500, 20000, 40)],
         proj=dict(keep_ops=None, keep_events=(), classes=True),
         oracle=O.oracle_no_panic, profiles=("debug", "release"), dump=False,
         nontrivial=lambda src, ops: sum(1 for l in src if l == "stabilise") >= 2,
@@ -95,7 +96,7 @@ SPECS = {
     ),
     "C05": dict(
         title="only needed nodes are computed",
-        streams=[("observers", 1000, 40000, 40), ("basic", 300, 20000, 30)],
+        streams=[("observers", 800, 40000, 40), ("basic", 200, 20000, 30), ("exports", 400, 20000, 40)],
         proj=dict(keep_ops=("stabilise", "stats"), keep_events=("inv", "foldcall", "bindrun", "rec")),
         oracle=O.oracle_only_needed, profiles=("debug",), dump=True,
         nontrivial=lambda src, ops: any(l.startswith(("dropobs", "disallow")) for l in src) and any(o.events for o in ops),
@@ -111,7 +112,10 @@ SPECS = {
     ),
     "C07": dict(
         title="observer values move only at stabilise boundaries",
-        streams=[("reads", 1500, 40000, 40)],
+        streams=[("reads", 1200, 40000, 40), ("writes", 600, 30000, 35)],
+        # closures that write variables: the python reference does not follow those writes, so on that stream only
+        # model and crate are compared (reads from top level and from inside closures)
+        no_oracle_profiles=("writes",),
         proj=dict(keep_ops=("read",), keep_events=("effread",)),
         oracle=lambda s, o, t: O.oracle_values(s, o, t, check_frame=True),
         profiles=("debug",), dump=False,
@@ -214,7 +218,7 @@ def run(pid, tier, seed):
             pi = proj(il, lines, **spec["proj"])
             d = ec.first_diff(pm, pi)
             try:
-                why = spec["oracle"](lines, iops, itail)
+                why = None if hid.rsplit("-", 1)[0] in spec.get("no_oracle_profiles", ()) else spec["oracle"](lines, iops, itail)
             except Exception as e:     # an oracle that cannot parse the trace is itself a finding
                 why = f"oracle could not evaluate the trace: {type(e).__name__}: {e}"
             if why:
